@@ -10,11 +10,11 @@ FAMILY = {
             'consumer_lookups_agree', 'consumer_refs', 'consumer_quiet',
             'notified_states_only_reported', 'notified_states_only_changed', 'notified_states_all_changed',
             'notified_context_only_reported', 'notified_context_only_changed', 'notified_context_all_changed',
-            'notified_new', 'notified_updated', 'notified_deleted'},
+            'notified_new', 'notified_updated', 'notified_deleted', 'reads_are_answered', 'reads_change_nothing'},
     'C04': {'report_triple', 'report_schema_valid', 'report_truthful', 'report_only_changed', 'report_complete', 'report_description_self_contained',
             'report_mds_grouping', 'report_rest_announced', 'nosend', 'store_truthful'},
     'C03': {'nosend'},
-    'C11': {'consumer_lookups_agree'},
+    'C11': {'consumer_lookups_agree', 'provider_lookups_agree_after_reads'},
 }
 
 
@@ -26,6 +26,8 @@ def record(behs, variants):
         # (report parts are grouped by MDS); every fifth of the others does, too
         mixed = any(lab.startswith('M:') and lab.count(':') == 2 and len(lab.split(':')[2]) >= 2
                     and set(lab.split(':')[2]) <= {'A', 'B'} for lab in mdibcommon.situation_labels(beh))
+        if i % 2:
+            kw['location'] = True      # the provider has a location context state besides what the history creates
         if mixed or i % 5 == 4:
             kw['mapping'] = 'two'
         ses = MirrorSession(mdibcommon.SIM_H, mdibcommon.SIM_CH, **kw)
